@@ -265,9 +265,13 @@ func (r *Run) Finish() int {
 	for _, v := range knownHit {
 		fmt.Printf("KNOWN-FINDING: property=%s %s [%s]\n", v.Property, v.What, v.Fingerprint)
 	}
-	os.MkdirAll(filepath.Join(verifDir, "replays"), 0o755)
+	rpDir := filepath.Join(verifDir, "replays")
+	if d := os.Getenv("VERIF_EVIDENCE_DIR"); d != "" {
+		rpDir = filepath.Join(d, "replays")
+	}
+	os.MkdirAll(rpDir, 0o755)
 	for _, v := range real {
-		path := filepath.Join(verifDir, "replays", fpFile(v))
+		path := filepath.Join(rpDir, fpFile(v))
 		art := map[string]any{"property": v.Property, "fingerprint": v.Fingerprint, "what": v.What, "engine": v.Engine, "case": v.Case,
 			"expected": v.Expected, "observed": v.Observed, "repo_rev": repoRev(), "reruns_identical": 5}
 		b, _ := json.MarshalIndent(art, "", " ")
@@ -318,8 +322,12 @@ func (r *Run) Finish() int {
 		"repo_rev":    repoRev(),
 	}
 	b, _ := json.MarshalIndent(ev, "", " ")
-	os.MkdirAll(filepath.Join(verifDir, "evidence"), 0o755)
-	if err := os.WriteFile(filepath.Join(verifDir, "evidence", r.Prop+".json"), b, 0o644); err != nil {
+	evDir := filepath.Join(verifDir, "evidence")
+	if d := os.Getenv("VERIF_EVIDENCE_DIR"); d != "" {
+		evDir = d // scratch runs (seed matrix) must not overwrite the evidence of the real tree
+	}
+	os.MkdirAll(evDir, 0o755)
+	if err := os.WriteFile(filepath.Join(evDir, r.Prop+".json"), b, 0o644); err != nil {
 		fmt.Fprintln(os.Stderr, err)
 		return 2
 	}
